@@ -51,6 +51,8 @@ type lMsg struct {
 	ScoreAfter   int    `json:"score_after"`
 	ExpAfter     int64  `json:"exp_after"`
 	HasEntry     bool   `json:"has_entry"`
+	// the sentinel counter of this procedure was reset by this message although no tick happened (other procedures untouched)
+	SentinelWiped bool `json:"sentinel_wiped,omitempty"`
 }
 
 type lReset struct {
@@ -179,17 +181,34 @@ func runLimiter(sc lScript) (rec lRec) {
 			c := n.LimiterCounter(procName(st.Proc), pids[st.Peer])
 			site = "Score"
 			score, exp, ok := n.Score(sc.Peers[st.Peer].IP)
+			wiped := false
 			if !alive(st.Proc) {
-				// the reset of this procedure fell somewhere around the message: ambiguous, stop here
-				rec.Truncated = true
-				return rec
+				// The sentinel of this procedure died around the message. A real tick resets EVERY procedure (within
+				// microseconds); if the sentinels of the other procedures stay alive, the counters of this procedure were
+				// wiped by the message itself (not by the ticker): keep the message, note it, and re-arm the sentinel.
+				tick := false
+				deadline := time.Now().Add(25 * time.Millisecond)
+				for time.Now().Before(deadline) {
+					if allDead() {
+						tick = true
+						break
+					}
+					time.Sleep(time.Millisecond)
+				}
+				if tick || len(sc.Procs) < 2 {
+					// the reset fell somewhere around the message: ambiguous, stop here
+					rec.Truncated = true
+					return rec
+				}
+				wiped = true
+				_ = n.LimiterMessage(procName(st.Proc), sentinel, sentinelAddr)
 			}
 			e := ""
 			if err != nil {
 				e = err.Error()
 			}
 			rec.Steps = append(rec.Steps, lMsg{Op: "msg", Proc: st.Proc, Peer: st.Peer, Now: now, Err: e, CounterAfter: c,
-				ScoreAfter: score, ExpAfter: exp, HasEntry: ok})
+				ScoreAfter: score, ExpAfter: exp, HasEntry: ok, SentinelWiped: wiped})
 		case "reset":
 			ok := waitReset()
 			rec.Steps = append(rec.Steps, lReset{Op: "reset", Observed: ok, Timeout: !ok})
@@ -250,7 +269,43 @@ func genLimiter(r *hx.Rng, id int) lScript {
 		ip = net.ParseIP(ip).String()
 		sc.Peers = append(sc.Peers, lPeer{IP: ip, Addr: maddr(ip), ID: fakePeerID(r)})
 	}
+	msg := func(pi, qi, n int) []lIn {
+		out := []lIn{}
+		for c := 0; c < n; c++ {
+			out = append(out, lIn{Op: "msg", Proc: pi, Peer: qi})
+		}
+		return out
+	}
+	if id%4 == 1 {
+		// interleaved peers on ONE procedure inside one interval: B goes up to the limit, A trips the limiter, B goes on:
+		// B's (limit+1)-th message must be penalised although A was penalised in between; the other procedure is independent
+		L0, L1 := sc.Procs[0].Limit, sc.Procs[1].Limit
+		a, b := 0, 1
+		var st []lIn
+		st = append(st, msg(0, b, L0)...)
+		st = append(st, msg(0, a, L0+1)...)
+		st = append(st, msg(0, b, 1)...)
+		st = append(st, lIn{Op: "reset"})
+		st = append(st, msg(0, b, L0-1)...)
+		st = append(st, msg(1, b, L1)...)
+		st = append(st, msg(0, a, L0+1)...)
+		st = append(st, msg(1, a, L1+1)...)
+		st = append(st, msg(0, b, 2)...)
+		st = append(st, msg(1, b, 1)...)
+		st = append(st, lIn{Op: "reset"})
+		if np > 2 {
+			st = append(st, msg(0, 2, L0)...)
+			st = append(st, msg(0, a, L0+1)...)
+			st = append(st, msg(0, b, L0+1)...)
+			st = append(st, msg(0, 2, 1)...)
+			st = append(st, lIn{Op: "reset"})
+		}
+		sc.Steps = append(sc.Steps, st...)
+	}
 	intervals := 4 + r.Intn(4)
+	if id%4 == 1 {
+		intervals = 2
+	}
 	for it := 0; it < intervals; it++ {
 		budget := 12
 		var burst []lIn
